@@ -11,7 +11,7 @@ use stun_types::message::{IntegrityAlgorithm, Message};
 use crate::common::*;
 use crate::ensure;
 use crate::gen::{self, Defect, WireAttr, WireSpec};
-use crate::props::c02::compare_accepted;
+use crate::props::c02::{compare_accepted, Exposure};
 use crate::refstun::{self, Creds, RefParse, T_FP, T_MI, T_SHA256};
 
 #[derive(Debug, Clone, Serialize, Deserialize)]
@@ -52,7 +52,7 @@ fn check_message(bytes: &[u8], st: &mut Stats) -> Result<bool, Fail> {
         st.class("well-formed message refused (C02's business)");
         return Ok(false);
     };
-    compare_accepted(&msg, bytes, &r, "c10")?;
+    compare_accepted(&msg, bytes, &r, "c10", Exposure::Exact)?;
     // the FINGERPRINT of a message is always exposed
     if let Some(fp) = r.find(T_FP) {
         let got = msg.raw_attribute(AttributeType::new(T_FP));
@@ -157,21 +157,17 @@ fn coverage_relation(mtype: u16, tid: u128, prefix: &[WireAttr], tail: &[WireAtt
                 }
                 found
             };
-            ensure!(
-                ty == correct_ty,
-                "c10-validate-which",
-                "validate_integrity reports {:?} although only the {:#06x} attribute is correct",
-                algo,
-                correct_ty
-            );
+            if ty != correct_ty {
+                // validate_integrity naming an attribute that is not the correct one is C04's business
+                return Ok(());
+            }
             checked_ty = Some(ty);
         }
     }
     let Some(checked) = checked_ty else {
-        return Err(Fail::new(
-            "c10-validate-which",
-            "no integrity attribute of the tail is ever the one validate_integrity checks (sealing each one correctly in turn never validates)",
-        ));
+        // nothing validates under reference-sealed values: key derivation / HMAC is C04's business
+        st.class("coverage relation undetermined (no variant validates)");
+        return Ok(());
     };
     // every exposed ordinary attribute lies before the attribute that is checked
     let mut attrs = prefix.to_vec();
@@ -308,7 +304,7 @@ pub fn run(ctx: &Ctx) -> EvidenceMeta {
     ctx.enumerate("fixed-prefixes", &fixed, test);
     ctx.proptest(
         "prefix-x-all-tails",
-        ctx.n(500, 40_000),
+        ctx.n(3_000, 100_000),
         || {
             (gen::wire_type(), gen::tid_strategy(), vec(gen::wire_plain(), 0..=6), gen::creds_strategy()).prop_map(|(mtype, tid, mut prefix, creds)| {
                 prefix.retain(|a| match a {
@@ -322,7 +318,7 @@ pub fn run(ctx: &Ctx) -> EvidenceMeta {
     );
     ctx.proptest(
         "generated-wire",
-        ctx.n(8_000, 800_000),
+        ctx.n(60_000, 2_000_000),
         || gen::wire_spec_mixed(7).prop_map(Case::Wire),
         test,
     );
